@@ -92,7 +92,7 @@ def lock_rules(ctx):
         if t == cache + '.immediate': return env['imm']
         if t == cache + '.in_transaction': return env['intx']
         return None
-    m = Machine(g, ['imm', 'intx', 'lock'], effect, atom)
+    m = Machine(g, ['imm', 'intx', 'lock'], effect, atom, snap={cache + '.immediate': 'imm', cache + '.in_transaction': 'intx'})
     IN = m.run([{'imm': True, 'intx': False, 'lock': 'free'}, {'imm': False, 'intx': False, 'lock': 'free'}])
     for ex, nm in ((g.exit, 'normal return'), (g.raise_, 'exception')):
         sts = m.states_at(IN, ex)
